@@ -31,6 +31,7 @@ P2(n) == T!Pow2Int(n)
 NPAT == 512
 CONSTANT XS                          \* the patterns of x explored (AllXS: every pattern; QuickXS: every class and exponent)
 AllXS   == 0..(NPAT - 1)
+OneXS == {17}
 QuickXS == {e * 16 + f : e \in 0..15, f \in {0, 5, 15}} \cup {256 + e * 16 + f : e \in {0, 1, 7, 12, 14, 15}, f \in {0, 9}}
 VARIABLES xb, rb                     \* patterns of x and r
 vars == <<xb, rb>>
@@ -254,6 +255,43 @@ ASSUME K!VecOk(Tabs4, Vec(<<2, 2, 1, 2>>, <<65280, 65408>>))
        /\ ~K!VecOk(Tabs4, Vec(<<2, 2, 1, 2>>, <<65280, 65409>>)) /\ ~K!VecOk(Tabs4, Vec(<<2, 2, 1, 2>>, <<65281, 65408>>))   \* a byte off
        /\ ~K!VecOk(Tabs4, Vec(<<2, 2, 1, 2>>, <<65280, 33152>>))                                                         \* channels x and y exchanged
        /\ ~K!VecOk(Tabs4, Vec(<<3, 2, 1, 2>>, <<65280, 65408>>)) /\ ~K!VecOk(Tabs4, Vec(<<2, 2, 1, 9>>, <<65280, 65408>>))   \* the position claim is checked
+
+\* --- binary64 patterns (quarters) and the double / integer instantiations ---
+DOne == <<16368, 0, 0, 0>>                                                                  \* 3ff0 0000 0000 0000
+ASSUME K!IsQuarters(DOne) /\ K!SDEq(K!D64Val(DOne), K!SDOne) /\ K!D64Val(DOne).m = K!Pow2L(52) /\ K!D64Class(DOne) = "normal"
+ASSUME K!SDEq(K!D64Val(<<0, 0, 0, 1>>), K!SDPow2(-1074)) /\ K!D64Class(<<0, 0, 0, 1>>) = "denormal" /\ K!D64Class(<<32768, 0, 0, 0>>) = "zero"
+       /\ K!D64Class(<<32752, 0, 0, 0>>) = "inf" /\ K!D64Class(<<32760, 0, 0, 0>>) = "nan" /\ ~K!D64IsFinite(<<65520, 0, 0, 0>>)
+       /\ K!SDEq(K!D64Val(<<49144, 0, 0, 0>>), K!SDScale(K!SDInt(-3), -1))                  \* bff8... = -1.5
+       /\ K!SDEq(K!D64Val(<<32751, 65535, 65535, 65535>>), K!SD(FALSE, K!Sub(K!Pow2L(53), K!One), 971))   \* DBL_MAX
+       /\ K!SDEq(K!D64Val(<<15, 65535, 65535, 65535>>), K!SD(FALSE, K!Sub(K!Pow2L(52), K!One), -1074))    \* largest denormal
+\* a binary32 pattern and its widening to binary64 are the same number: 1/3f = 3eaaaaab = 3fd5555560000000, FLT_MAX = 47efffffe0000000
+ASSUME K!SDEq(K!Val(F(16042, 43691)), K!D64Val(<<16341, 21845, 24576, 0>>)) /\ K!SDEq(K!Val(F(32639, 65535)), K!D64Val(<<18415, 65535, 57344, 0>>))
+\* deg2rad<double>(180) = 400921fb54442d18: accepted, also 2 units away; 16 units away (2^-48.6 relative) is not
+ASSUME K!Deg2RadD64Ok(<<16486, 32768, 0, 0>>, <<16393, 8699, 21572, 11544>>) /\ K!Deg2RadD64Ok(<<16486, 32768, 0, 0>>, <<16393, 8699, 21572, 11546>>)
+       /\ ~K!Deg2RadD64Ok(<<16486, 32768, 0, 0>>, <<16393, 8699, 21572, 11560>>) /\ ~K!Deg2RadD64Ok(<<16486, 32768, 0, 0>>, <<49161, 8699, 21572, 11544>>)
+       /\ K!Deg2RadD64Ok(<<0, 0, 0, 1>>, <<0, 0, 0, 0>>) /\ ~K!Deg2RadD64Ok(<<0, 0, 0, 1>>, <<0, 0, 0, 2>>)
+\* lerp<double>(0.25f, 2, 4) = 2.5 = 4004...; 3.5 (operands exchanged) and 2.5 + 2^-19 are not (2.5 + 2^-20 is inside the bound 2.5 * 2^-21)
+ASSUME K!LerpD64Ok(F(16000, 0), <<16384, 0, 0, 0>>, <<16400, 0, 0, 0>>, <<16388, 0, 0, 0>>) /\ ~K!LerpD64Ok(F(16000, 0), <<16384, 0, 0, 0>>, <<16400, 0, 0, 0>>, <<16396, 0, 0, 0>>)
+       /\ K!LerpD64Ok(F(16000, 0), <<16384, 0, 0, 0>>, <<16400, 0, 0, 0>>, <<16388, 0, 32768, 0>>) /\ ~K!LerpD64Ok(F(16000, 0), <<16384, 0, 0, 0>>, <<16400, 0, 0, 0>>, <<16388, 1, 0, 0>>) /\ ~K!LerpD64Ok(F(16000, 0), <<16384, 0, 0, 0>>, <<16400, 0, 0, 0>>, <<32752, 0, 0, 0>>)
+\* an overflowing evaluation is not stated: lerp<double>(1.5f, 0, DBL_MAX) = inf; madd(FLT_MAX, 2, 0) = inf; but an infinity where nothing overflows is rejected
+ASSUME K!LerpD64Ok(F(16320, 0), <<0, 0, 0, 0>>, <<32751, 65535, 65535, 65535>>, <<32752, 0, 0, 0>>) /\ K!MaddOk(F(32639, 65535), Two32, F(0, 0), F(32640, 0))
+       /\ ~K!MaddOk(Two32, F(16448, 0), One32, F(32640, 0)) /\ ~K!LerpOk(F(16000, 0), Two32, F(16512, 0), F(32640, 0))
+       /\ K!LerpOk(F(16320, 0), F(0, 0), F(32639, 65535), F(32640, 0))
+\* rcp_safe(double): zeros are of no sign; a negative denormal must not give a positive result; infinities are not finite
+ASSUME K!RcpSafeD64Ok(<<32768, 0, 0, 0>>, <<32736, 0, 0, 0>>) /\ ~K!RcpSafeD64Ok(<<32768, 0, 0, 1>>, <<32736, 0, 0, 0>>) /\ K!RcpSafeD64Ok(<<32768, 0, 0, 1>>, <<65504, 0, 0, 0>>)
+       /\ ~K!RcpSafeD64Ok(<<0, 0, 0, 1>>, <<32752, 0, 0, 0>>)
+\* lerp<int32_t>: factor 1 between 0 and the largest value must give (about) the largest value - the smallest value (what
+\* an out-of-range float-to-int conversion produces) is rejected; an exact value outside the type is not stated
+I32Max == K!SDInt(2147483647)
+I32Min == K!SDSub(K!SDInt(-2147483647), K!SDOne)
+ASSUME K!LerpIntOk(K!SDOne, K!SDZero, I32Max, I32Max, I32Min, I32Max) /\ K!LerpIntOk(K!SDOne, K!SDZero, I32Max, K!SDInt(2147483647 - 1000), I32Min, I32Max)
+       /\ ~K!LerpIntOk(K!SDOne, K!SDZero, I32Max, K!SDInt(2147483647 - 2000), I32Min, I32Max) /\ ~K!LerpIntOk(K!SDOne, K!SDZero, I32Max, I32Min, I32Min, I32Max)
+       /\ K!LerpIntOk(K!SDScale(K!SDInt(3), -1), K!SDZero, I32Max, I32Min, I32Min, I32Max)        \* 1.5 * max is not a value of the type
+       /\ K!LerpIntNearEdge(K!SDOne, K!SDZero, I32Max, I32Min, I32Max) /\ ~K!LerpIntNearEdge(K!SDPow2(-1), K!SDZero, K!SDInt(100), I32Min, I32Max)
+       /\ K!LerpIntOk(K!SDPow2(-1), K!SDInt(3), K!SDInt(4), K!SDInt(3), I32Min, I32Max) /\ ~K!LerpIntOk(K!SDPow2(-1), K!SDInt(3), K!SDInt(4), K!SDInt(5), I32Min, I32Max)
+\* the width of a range is not a float: (-FLT_MAX, FLT_MAX), (-2^127, 2^127); it is one for (-2^127 + step, 2^127 - step) and (-1, FLT_MAX)
+ASSUME K!WidthOverflows(F(65407, 65535), F(32639, 65535)) /\ K!WidthOverflows(F(65280, 0), F(32512, 0)) /\ ~K!WidthOverflows(F(65279, 65535), F(32511, 65535))
+       /\ ~K!WidthOverflows(F(49024, 0), F(32639, 65535)) /\ ~K!WidthOverflows(F(0, 0), One32)
 
 \* --- distributions ---
 Z32 == F(0, 0)
